@@ -169,9 +169,9 @@ PROPERTIES.update({
         "level_note": "A1, A2, A8.",
     },
     "C20": {
-        "modules": ["utilsc", "contour", "purity"], "level": "proof", "floor": 60,
+        "modules": ["utilsc", "contour", "purity"], "level": "proof", "floor": 60, "lean": "lemmas/C20.lean",
         "assumptions": COMMON + [A["A3"]], "trusted": [T["Z3"], "np.argsort returns a permutation sorting its argument (tie order unspecified); np.cumsum = prefix sums; np.searchsorted(side=left) = least index with a[k] >= v on a sorted array; ravel/reshape are mutually inverse row-major bijections"],
-        "explanation": "get_source_area in rank form: with ord the descending-g order, out.flat[ord[r]] = sum of f over the r cells ranked above (exclusive cumulative sum), cumulated array = f in that order, result has g's shape, integer-typed g does not truncate; base functions equal their formulas; extract_percentile_contour: descending cumulative sums times cell area are searched for p*total with side=left (fewest cells), area = (k+1)*cell area, level = smallest selected value, 2-D/3-D fields and 1-D/2-D/3-D coordinates, level slicing. Set-form consequences (ties, monotonicity, invariance) are lemmas of the rank form (adjacent instances discharged; the general transitive statements are exercised by the brute-force bounded oracle).",
+        "explanation": "get_source_area in rank form: with ord the descending-g order, out.flat[ord[r]] = sum of f over the r cells ranked above (exclusive cumulative sum), cumulated array = f in that order, result has g's shape, integer-typed g does not truncate; base functions equal their formulas; extract_percentile_contour: descending cumulative sums times cell area are searched for p*total with side=left (fewest cells), area = (k+1)*cell area, level = smallest selected value, 2-D/3-D fields and 1-D/2-D/3-D coordinates, level slicing. Set-form consequences are lemmas over the rank form, checked by Lean 4 + Mathlib in the thorough tier (lemmas/C20.lean, no sorry, axioms propext/choice/Quot.sound only): the value lies between the sum over the cells with strictly larger g and the sum over the other cells with larger-or-equal g, 0 <= value <= total - f(cell), the value does not increase with g, a strictly increasing transformation of g leaves the admissible orders unchanged, a common permutation of the cells permutes the result; for the contour: the selected count is monotone in p, the level antitone, scaling f keeps the index and scales the level. Adjacent instances are also discharged by z3 in every tier; the brute-force bounded oracle exercises the same statements natively.",
         "level_text": "Rank/prefix-sum form proved on the real code under the argsort/cumsum/searchsorted contracts.",
         "level_note": "library contracts of argsort/cumsum/searchsorted/ravel trusted (conformance via the bounded brute-force oracle).",
     },
